@@ -313,5 +313,125 @@ pub fn run(r: &mut Runner) -> &'static str {
         None
     };
     r.bulk("c02.signature", Some("12 signature positions x 255 wrong values x 4 families x 4 truncations"), &work_sig, &judge);
+
+    // ---- two and three signature bytes wrong at once (differences that could cancel in a word-wise or folded comparison)
+    let work_sig2 = |shard: usize, nshards: usize, st: &mut Stats, stop: &AtomicBool| -> Option<(Vec<u8>, Fail)> {
+        let mut h = SIG.to_vec();
+        h.extend_from_slice(&[0x21, 0x11, 0, 12, 127, 0, 0, 1, 127, 0, 0, 2, 0, 80, 1, 187]);
+        let mut count = 0u64;
+        let mut idx = 0usize;
+        for p1 in 0..12usize {
+            for p2 in p1 + 1..12 {
+                idx += 1;
+                if idx % nshards != shard {
+                    continue;
+                }
+                if stop.load(Ordering::Relaxed) {
+                    return None;
+                }
+                for d1 in 1..=255u8 {
+                    for d2 in 1..=255u8 {
+                        let mut x = h.clone();
+                        x[p1] ^= d1;
+                        x[p2] ^= d2;
+                        count += 1;
+                        // no input whose first 12 bytes differ from the signature may be accepted
+                        if matches!(imp::v2_parse(&x), Ok(Ok(_))) {
+                            let mut scratch = Stats { frozen: true, ..Stats::default() };
+                            if let Err(f) = judge(&x, &mut scratch) {
+                                return Some((x, f));
+                            }
+                        }
+                    }
+                }
+            }
+        }
+        // triples: every choice of three positions, equal deltas and a few unequal ones, also with arithmetic (+/-) deltas
+        for p1 in 0..12usize {
+            for p2 in p1 + 1..12 {
+                for p3 in p2 + 1..12 {
+                    idx += 1;
+                    if idx % nshards != shard {
+                        continue;
+                    }
+                    for d in 1..=255u8 {
+                        for (a, b, c) in [(d, d, d), (d, d, d ^ 0xff), (d, d.rotate_left(1), d), (d, d, 1)] {
+                            for arith in [false, true] {
+                                let mut x = h.clone();
+                                if arith {
+                                    x[p1] = x[p1].wrapping_add(a);
+                                    x[p2] = x[p2].wrapping_sub(b);
+                                    x[p3] = x[p3].wrapping_add(c);
+                                } else {
+                                    x[p1] ^= a;
+                                    x[p2] ^= b;
+                                    x[p3] ^= c;
+                                }
+                                if x[..12] == SIG[..] {
+                                    continue;
+                                }
+                                count += 1;
+                                if matches!(imp::v2_parse(&x), Ok(Ok(_))) {
+                                    let mut scratch = Stats { frozen: true, ..Stats::default() };
+                                    if let Err(f) = judge(&x, &mut scratch) {
+                                        return Some((x, f));
+                                    }
+                                }
+                            }
+                        }
+                    }
+                }
+            }
+        }
+        st.evals_n(count);
+        st.nontrivial_counted += count;
+        st.class_n("signature-multi-corruptions", count);
+        None
+    };
+    r.bulk("c02.signature-pairs", Some("all 66 pairs of signature positions x all 255 x 255 XOR deltas; all 220 triples of positions x 255 deltas x 4 delta patterns x {xor, add/sub}"), &work_sig2, &judge);
+
+    // ---- buffers far larger than the header: a valid header in front of 64 KiB .. 192 KiB of further bytes
+    let work_big = |shard: usize, nshards: usize, st: &mut Stats, stop: &AtomicBool| -> Option<(Vec<u8>, Fail)> {
+        let mut buf = SIG.to_vec();
+        buf.extend_from_slice(&[0, 0, 0, 0]);
+        buf.extend(fill((seed as u32).wrapping_mul(97).wrapping_add(shard as u32) | 1, 3 * 65536 + 64));
+        let mut scratch = Stats { frozen: true, ..Stats::default() };
+        let mut count = 0u64;
+        let pairs: Vec<(u8, u8)> = [0x20u8, 0x21].iter().flat_map(|vc| (0..=0x32u8).filter(|a| valid_afp(*a)).map(move |a| (*vc, a))).collect();
+        let lens: Vec<usize> = vec![0, 1, 12, 13, 36, 40, 216, 217, 300, 4096, 32768, 65519, 65520, 65534, 65535];
+        let mut idx = 0usize;
+        for (vc, afp) in &pairs {
+            for &l in &lens {
+                idx += 1;
+                if idx % nshards != shard {
+                    continue;
+                }
+                if stop.load(Ordering::Relaxed) {
+                    return None;
+                }
+                buf[12] = *vc;
+                buf[13] = *afp;
+                buf[14] = (l >> 8) as u8;
+                buf[15] = l as u8;
+                // total buffer sizes around every multiple of 65536 (+16), and around multiples + the declared length
+                for base in [65536usize, 2 * 65536, 3 * 65536] {
+                    for total in [base - 1, base, base + 1, base + 15, base + 16, base + 17, base + 16 + l.saturating_sub(1), base + 16 + l, base + 16 + l + 1, base + 16 + l / 2, base + 28, base + 40] {
+                        if total > buf.len() || total < 16 + l {
+                            continue;
+                        }
+                        count += 1;
+                        if let Err(f) = judge_slice(&buf[..total], &mut scratch) {
+                            return Some((buf[..total].to_vec(), f));
+                        }
+                    }
+                }
+            }
+        }
+        st.evals_n(count);
+        st.nontrivial_counted += count;
+        st.class_n("oversized-buffer-cases", count);
+        None
+    };
+    r.bulk("c02.large-buffers", Some("24 valid control pairs x 15 declared lengths x 36 buffer sizes around 64 KiB, 128 KiB and 192 KiB (header followed by that much further data)"), &work_big, &judge);
     "exploration"
 }
